@@ -396,6 +396,10 @@ impl Exec {
                     return;
                 }
                 self.stats.sp_restored += 1;
+                self.probe(if what.contains("persistent") { "restore_persistent_ok" } else { "restore_ephemeral_ok" });
+                if ctx.dirty {
+                    self.probe("restore_in_dirty_txn");
+                }
                 ctx.pend.tables = (*snap).clone();
                 ctx.floor = Some(ctx.floor.map_or(seq, |f| f.min(seq)));
                 let before = ctx.pend.psp.len();
@@ -406,6 +410,7 @@ impl Exec {
                 ctx.dirty = true;
             }
             Ok(Err(SavepointError::InvalidSavepoint)) => {
+                self.probe("restore_refused_invalid");
                 if !invalid {
                     self.viol("C07", "restore-refused", format!("restore of a valid {what} savepoint (seq {seq}) refused with InvalidSavepoint"));
                 }
@@ -631,6 +636,12 @@ impl Exec {
                 let Some(got) = self.sres(ctx, "get/remove", r) else { return };
                 let m = Self::table_mut(ctx, &name).map_mut();
                 let exp = if is_get { m.get(&k).copied() } else { m.remove(&k) }.map(|o| expect_ov(o, bytes));
+                self.probe(match (is_get, exp.is_some()) {
+                    (true, true) => "get_present",
+                    (true, false) => "get_absent",
+                    (false, true) => "remove_present",
+                    (false, false) => "remove_absent",
+                });
                 if got != exp {
                     self.viol("C04", if is_get { "get-result" } else { "remove-result" }, format!("{}({k:?}) on {name}: got present={}, expected present={}", if is_get { "get" } else { "remove" }, got.is_some(), exp.is_some()));
                 }
@@ -648,6 +659,7 @@ impl Exec {
                 let Some(got) = self.sres(ctx, "pop", r) else { return };
                 let m = Self::table_mut(ctx, &name).map_mut();
                 let exp = if first { m.pop_first() } else { m.pop_last() }.map(|(k, o)| (k, expect_ov(o, bytes)));
+                self.probe(if exp.is_some() { "pop_present" } else { "pop_empty" });
                 if got != exp {
                     self.viol("C04", "pop-result", format!("pop_{} on {name}: got {:?}, expected {:?}", if first { "first" } else { "last" }, got.map(|p| p.0), exp.map(|p| p.0)));
                 }
@@ -778,6 +790,12 @@ impl Exec {
                     }
                     present
                 };
+                self.probe(match (ins, exp) {
+                    (true, false) => "mm_insert_new",
+                    (true, true) => "mm_insert_duplicate",
+                    (false, true) => "mm_remove_present",
+                    (false, false) => "mm_remove_absent",
+                });
                 if got != exp {
                     self.viol("C09", "mm-insert-remove", format!("multimap {} on {name} ({k:?}) returned {got}, expected {exp}", if ins { "insert" } else { "remove" }));
                 }
@@ -795,6 +813,7 @@ impl Exec {
                         let r = h.remove_all(&k);
                         let Some(got) = self.sres(ctx, "remove_all", r) else { return };
                         let exp: Vec<KeyVal> = Self::table_mut(ctx, &name).mm_mut().remove(&k).map(|s| s.into_iter().collect()).unwrap_or_default();
+                        self.probe(if exp.is_empty() { "mm_remove_all_absent" } else if exp.len() > 8 { "mm_remove_all_many" } else { "mm_remove_all_some" });
                         if got != exp {
                             self.viol("C09", "mm-remove-all", format!("remove_all({k:?}) on {name}: {} values, expected {}", got.len(), exp.len()));
                         }
@@ -804,6 +823,7 @@ impl Exec {
                         let Some((n, got)) = self.sres(ctx, "multimap get", r) else { return };
                         let all: Vec<KeyVal> = ctx.pend.tables[&name].mm().get(&k).map(|s| s.iter().cloned().collect()).unwrap_or_default();
                         let exp = consume(&all, *pattern, u32::MAX);
+                        self.probe(if all.is_empty() { "mm_get_absent" } else { "mm_get_present" });
                         if got != exp || n != all.len() as u64 {
                             self.viol("C09", "mm-get", format!("get({k:?}) on {name}: len {n}, {} values; expected {}", got.len(), all.len()));
                         }
@@ -909,6 +929,11 @@ impl Exec {
                     self.viol("C17", "delete-result", format!("delete {name} (multimap={mm}): got {got}, expected {exp}"));
                     return;
                 }
+                self.probe(match got {
+                    "true" => "delete_table_existing",
+                    "false" => "delete_table_absent",
+                    _ => "delete_table_refused",
+                });
                 if got == "true" {
                     ctx.pend.tables.remove(&name);
                 }
@@ -929,7 +954,7 @@ impl Exec {
                 ctx.dirty = true;
                 self.stats.api_calls += 3;
                 match crate::custom::type_probe(txn, *made, *reopened, *as_key) {
-                    crate::custom::ProbeOutcome::Ok => {}
+                    crate::custom::ProbeOutcome::Ok => self.probe("type_probe"),
                     crate::custom::ProbeOutcome::Storage(e) => {
                         if self.mode == Mode::Faulty {
                             self.note_error(&e);
